@@ -82,6 +82,44 @@ let process line =
                      | None -> "oob")
                   | None -> "oob")
      | None -> "nofn")
+  | "A" :: sf :: af :: hp :: rp :: nh :: rest ->
+    (* repeated records: setter (IR), n appends (hand-written model of the append function of that PGN), header / record parsers (IR) *)
+    let ks = fid sf in
+    let nh = int_of_string nh in
+    let ha = List.map arg_of (take nh rest) in
+    (match drop nh rest with
+     | k :: n :: rest2 ->
+       let k = int_of_string k and n = int_of_string n in
+       (match assoc_nat ks all_setters with
+        | Some s ->
+          (match exec_set s ha with
+           | Some m0 ->
+             let steps = Buffer.create 64 in
+             let m = ref m0 in
+             for i = 0 to n - 1 do
+               let a = List.map arg_of (take k (drop (i * k) rest2)) in
+               let (ok, m') = append_model !m.m_pgn !m a in
+               if ok then (Buffer.add_string steps "1+"; m := m')
+               else Buffer.add_string steps (if m' = !m then "0=" else "0!")
+             done;
+             if n = 0 then Buffer.add_string steps "-";
+             let nidx = int_of_string (List.nth rest2 (n * k)) in
+             let mp = { !m with m_data = pad223 !m.m_data } in
+             let b = Buffer.create 256 in
+             Buffer.add_string b (Printf.sprintf "k%s,%s A %s %s" sf af (Buffer.contents steps) (show_msg !m));
+             let bad = ref false in
+             if hp <> "-" then
+               (match show_parse (fid hp) [] mp with Some r -> Buffer.add_string b (" | H " ^ r) | None -> bad := true);
+             if rp <> "-" then
+               for i = 0 to nidx - 1 do
+                 match show_parse (fid rp) [VI (z_of_int i)] mp with
+                 | Some r -> Buffer.add_string b (Printf.sprintf " | I%d %s" i r)
+                 | None -> bad := true
+               done;
+             if !bad then "oob" else Buffer.contents b
+           | None -> "oob")
+        | None -> "nofn")
+     | _ -> "badcase")
   | [] -> "skip"
   | _ -> "badcase"
 
